@@ -51,6 +51,10 @@ func (ex *Exec) CallCatch(fv Value, args []Value) (ret Value, pan *GoPanic) {
 
 func (ex *Exec) CallFn(fn *ssa.Function, args []Value, free []Value) Value {
 	name := fn.String()
+	if stub, ok := ex.LocalStubs[name]; ok {
+		ex.Stats.Stubs[name]++
+		return stub(ex, &CallInfo{Name: name, Args: args, Sig: fn.Signature})
+	}
 	if stub, ok := ex.Stubs[name]; ok { // external callee, or a summarised module function
 		ex.Stats.Stubs[name]++
 		return stub(ex, &CallInfo{Name: name, Args: args, Sig: fn.Signature})
